@@ -6,6 +6,37 @@ use crate::diagnostics::{Diagnostic, Diagnostics, Error, Note};
 use crate::grammar::*;
 use std::collections::{BTreeSet, HashSet};
 
+/// Checks every interface for inheritance cycles (interfaces that inherit from themselves, directly or transitively).
+pub(super) fn detect_inheritance_cycles(ast: &Ast, diagnostics: &mut Diagnostics) {
+    // Returns true if `target` can be reached from `current` by following base interfaces.
+    // `path` holds the type-ids of the interfaces on the way, and `visited` ensures each interface is expanded once.
+    fn find_path_to(target: &str, current: &Interface, path: &mut Vec<String>, visited: &mut HashSet<String>) -> bool {
+        for base in current.base_interfaces() {
+            let base_id = base.module_scoped_identifier();
+            path.push(base_id.clone());
+            if base_id == target || (visited.insert(base_id) && find_path_to(target, base, path, visited)) {
+                return true;
+            }
+            path.pop();
+        }
+        false
+    }
+
+    for node in ast.as_slice() {
+        let Node::Interface(interface_ptr) = node else { continue };
+        let interface_def = interface_ptr.borrow();
+
+        let type_id = interface_def.module_scoped_identifier();
+        let mut path = vec![type_id.clone()];
+        if find_path_to(&type_id, interface_def, &mut path, &mut HashSet::new()) {
+            let cycle = path.join(" -> ");
+            Diagnostic::new(Error::CyclicInheritance { type_id, cycle })
+                .set_span(interface_def.span())
+                .push_into(diagnostics);
+        }
+    }
+}
+
 pub(super) fn detect_cycles(ast: &Ast, diagnostics: &mut Diagnostics) {
     let mut cycle_detector = CycleDetector {
         type_being_checked: None,
